@@ -964,6 +964,45 @@ struct Guard<'a, K: Hash + Eq, V> {
     guard: MutexGuard<'a, Option<HashMap<K, V>>>,
 }
 
+/// Verification hooks, only compiled with `--cfg avl_savefile_verif`:
+/// a log of the lock events on the three process-wide caches.
+#[cfg(avl_savefile_verif)]
+#[doc(hidden)]
+pub mod verif_hooks {
+    /// One entry per event: (thread, lock: 0 = ENTRY_CACHE, 1 = LIBRARY_CACHE, 2 = ABI_CONNECTION_TEMPLATES,
+    /// event: 0 = requested, 1 = acquired, 2 = about to be released)
+    pub static LOCK_LOG: std::sync::Mutex<Vec<(std::thread::ThreadId, u8, u8)>> = std::sync::Mutex::new(Vec::new());
+    fn within<T>(addr: usize, cache: &T) -> bool {
+        let start = cache as *const T as usize;
+        addr >= start && addr < start + std::mem::size_of::<T>()
+    }
+    /// Which cache an address (of the mutex itself, or of the data it protects) belongs to
+    pub(crate) fn which(addr: usize) -> u8 {
+        if within(addr, &super::ENTRY_CACHE) {
+            0
+        } else if within(addr, &super::LIBRARY_CACHE) {
+            1
+        } else if within(addr, &super::ABI_CONNECTION_TEMPLATES) {
+            2
+        } else {
+            255
+        }
+    }
+    pub(crate) fn log(which: u8, event: u8) {
+        if let Ok(mut l) = LOCK_LOG.lock() {
+            l.push((std::thread::current().id(), which, event));
+        }
+    }
+}
+
+#[cfg(avl_savefile_verif)]
+impl<K: Hash + Eq, V> Drop for Guard<'_, K, V> {
+    fn drop(&mut self) {
+        let data: &Option<HashMap<K, V>> = &self.guard;
+        verif_hooks::log(verif_hooks::which(data as *const _ as usize), 2);
+    }
+}
+
 impl<K: Hash + Eq, V> std::ops::Deref for Guard<'_, K, V> {
     type Target = HashMap<K, V>;
     fn deref(&self) -> &HashMap<K, V> {
@@ -980,7 +1019,13 @@ impl<K: Hash + Eq, V> std::ops::DerefMut for Guard<'_, K, V> {
 // Avoid taking a dependency on OnceCell or lazy_static or something, just for this little thing
 impl<'a, K: Hash + Eq, V> Guard<'a, K, V> {
     pub fn lock(map: &'a Mutex<Option<HashMap<K /*filename*/, V>>>) -> Guard<'a, K, V> {
+        #[cfg(avl_savefile_verif)]
+        let which = verif_hooks::which(map as *const _ as usize);
+        #[cfg(avl_savefile_verif)]
+        verif_hooks::log(which, 0);
         let mut guard = map.lock().unwrap();
+        #[cfg(avl_savefile_verif)]
+        verif_hooks::log(which, 1);
         if guard.is_none() {
             *guard = Some(HashMap::new());
         }
